@@ -1,4 +1,4 @@
-import Pbc.Props.C06b
+import Pbc.Props.C06m
 /-
   C06, part C — what the parser returns is in the canonical form of the round-trip theorem, hence re-serialising it and
   parsing the bytes again gives the same message back.
@@ -35,7 +35,7 @@ def Fits (S : Schema) : Nat → Msg → Prop
 structure SchemaGood (S : Schema) : Prop where
   ok : ∀ t, SchemaOK (S.msg t).fields
   dflt : ∀ t, ∀ f ∈ (S.msg t).fields, DfltOK f
-  nomerge : ∀ t, NoMerge (S.msg t).fields
+  oneof : ∀ t, OneofLabelsOK (S.msg t).fields
   reqNoDflt : ∀ t, ∀ f ∈ (S.msg t).fields, f.label = .required → f.dflt = .none
   zeroInit : ∀ t, ∀ f ∈ (S.msg t).fields, f.label = .none → f.group = none →
     writes f 0 (initSlot' (S.msg t).initGeneric f).v = false
@@ -102,42 +102,49 @@ theorem shape_not_absent (P : Msg → Prop) (f : FieldDesc) (v : Val) (h : Shape
   | zero => exact absurd h1 (by simp [Shape1])
 
 /-- an optional field that was never written is not serialised -/
-theorem init_not_written_opt (g : Bool) (f : FieldDesc) (hd : DfltOK f) (hl : f.label = .optional) (hg : f.group = none)
-    (hnm : f.type ≠ .message) : ∃ v, initSlot' g f = .one 0 v ∧ writes f 0 v = false := by
+theorem init_not_written_opt (g : Bool) (f : FieldDesc) (hd : DfltOK f) (hl : f.label = .optional) (hg : f.group = none) :
+    ∃ v, initSlot' g f = .one 0 v ∧ writes f 0 v = false := by
   have hlr : (f.label == Label.repeated) = false := by rw [hl]; rfl
   have ho : f.isOneof = false := by simp [FieldDesc.isOneof, hg]
   unfold writes
   simp only [hl]
-  by_cases hs : f.type = .string
-  · -- a string member holds NULL or the default object
+  by_cases hs : f.type = .string ∨ f.type = .message
+  · -- a pointer member holds NULL or the default object
+    have hw2 : f.type.wireType = 2 := by rcases hs with h | h <;> rw [h] <;> rfl
     have hinit : f.init = none := by
       cases hi : f.init with
       | none => rfl
-      | some b => have := hd.2 (by simp [hi]); rw [hs] at this; exact absurd rfl this
+      | some b => have := hd.2 (by simp [hi]); exact absurd hw2 this
     have hv : ∃ v, initSlot' g f = .one 0 v ∧ ptrAbsent f v = true := by
       unfold initSlot'
       have hdv : ptrAbsent f (dfltVal f) = true := by
         unfold dfltVal
         cases hdf : f.dflt with
-        | none => simp [zeroVal, hs, ptrAbsent]
-        | scalar b => have := hd.1; rw [hdf] at this; rw [hs] at this; exact absurd rfl this
+        | none => rcases hs with h | h <;> simp [zeroVal, h, ptrAbsent]
+        | scalar b => have := hd.1; rw [hdf] at this; exact absurd hw2 this
         | str s => rfl
         | emptyStr => rfl
-        | bin b => have := hd.1; rw [hdf] at this; have h' := this.1; rw [hs] at h'; cases h'
+        | bin b =>
+          have := hd.1; rw [hdf] at this; have h' := this.1
+          rcases hs with h | h <;> rw [h] at h' <;> cases h'
       cases g <;> simp only [Bool.false_eq_true, if_false, if_true, initSlotGen, initSlotGeneric, hlr, ho, hinit]
       · exact ⟨_, rfl, hdv⟩
       · exact ⟨_, rfl, hdv⟩
     obtain ⟨v, h1, h2⟩ := hv
-    exact ⟨v, h1, by simp [hs, h2]⟩
+    refine ⟨v, h1, ?_⟩
+    have : (f.type == PType.message || f.type == PType.string) = true := by
+      rcases hs with h | h <;> simp [h]
+    simp [this, h2]
   · obtain ⟨v, hv⟩ := initSlot'_q g f (by rw [hl]; simp)
     refine ⟨v, hv, ?_⟩
     have h1 : (f.type == PType.message || f.type == PType.string) = false := by
-      simp only [Bool.or_eq_false_iff]; exact ⟨by simpa using hnm, by simpa using hs⟩
+      simp only [Bool.or_eq_false_iff]
+      exact ⟨by simpa using (fun h => hs (Or.inr h)), by simpa using (fun h => hs (Or.inl h))⟩
     simp [h1]
 
 /-- a singular, non-oneof slot as the parse pass leaves it, with the size conditions, is in canonical form -/
 theorem classify_one (P Q P' : Msg → Prop) (S : Schema) (g : Bool) (f : FieldDesc) (hPQ : ∀ m', P m' → Q m' → P' m')
-    (hd : DfltOK f) (hg : f.group = none) (hl : f.label ≠ .repeated) (hnm : f.type ≠ .message)
+    (hd : DfltOK f) (hg : f.group = none) (hl : f.label ≠ .repeated)
     (hzero : f.label = .none → writes f 0 (initSlot' g f).v = false)
     (s : Slot) (h1 : s = initSlot' g f ∨ Touched P f s) (h2 : f.label = .required → Touched P f s)
     (hfit : FitsSlot Q S g f s) : CanonSlotP P' S g f s := by
@@ -152,14 +159,18 @@ theorem classify_one (P Q P' : Msg → Prop) (S : Schema) (g : Bool) (f : FieldD
     | repeated => exact absurd hlab hl
     | optional =>
       simp only
-      by_cases hs : f.type = .string
-      · simp [hs, shape_not_absent P f v hsh (Or.inl hs)]
-      · have h1 : (f.type == PType.message || f.type == PType.string) = false := by
-          simp only [Bool.or_eq_false_iff]; exact ⟨by simpa using hnm, by simpa using hs⟩
+      by_cases hs : f.type = .string ∨ f.type = .message
+      · have : (f.type == PType.message || f.type == PType.string) = true := by
+          rcases hs with h | h <;> simp [h]
+        simp [this, shape_not_absent P f v hsh hs]
+      · have hns : f.type ≠ .string := fun h => hs (Or.inl h)
+        have hnm : f.type ≠ .message := fun h => hs (Or.inr h)
+        have h1 : (f.type == PType.message || f.type == PType.string) = false := by
+          simp only [Bool.or_eq_false_iff]; exact ⟨by simpa using hnm, by simpa using hns⟩
         have hh : f.hasQ = true := by
           unfold FieldDesc.hasQ
           simp only [hlab, hg]
-          simp [hs, hnm]
+          simp [hns, hnm]
         simp [h1, hq, hh]
     | none =>
       obtain ⟨q', v', he, hw'⟩ := hw hlab
@@ -176,7 +187,7 @@ theorem classify_one (P Q P' : Msg → Prop) (S : Schema) (g : Bool) (f : FieldD
       | required => exact absurd hlab hreq
       | repeated => exact absurd hlab hl
       | optional =>
-        obtain ⟨v1, hv1, hw⟩ := init_not_written_opt g f hd hlab hg hnm
+        obtain ⟨v1, hv1, hw⟩ := init_not_written_opt g f hd hlab hg
         rw [hv0] at hv1; cases hv1; exact hw
       | none =>
         have := hzero hlab
@@ -222,17 +233,18 @@ theorem init_minv (P : Msg → Prop) (S : Schema) (t : Nat) (hsch : SchemaOK (S.
     have := (hsch.ids _ (getD_mem _ j hj)).1
     rw [if_neg (by omega)]
 
-/-- **what the parser returns is canonical**: for a schema without singular message fields, every message
-    `protobuf_c_message_unpack` returns on ANY input, if it fits the size limits of the format (`Fits`), is in the
-    parser form of the round-trip theorem -/
-theorem parsed_canon (S : Schema) (hS : SchemaGood S) : ∀ (fuel t : Nat) (b : Bytes) (m : Msg) (k : Nat),
-    unpackMsg S fuel t b = some m → Fits S k m → CanonNO S k m := by
+theorem mergeSch_of (S : Schema) (hS : SchemaGood S) (t : Nat) : MergeSch (S.msg t).initGeneric (S.msg t).fields :=
+  ⟨hS.ok t, hS.oneof t, hS.dflt t, hS.zeroInit t⟩
+
+/-- **what the parser returns is in parser form**, to the nesting depth its fuel allows: on ANY input, merges of
+    repeated occurrences of embedded messages included -/
+theorem parsed_pfn (S : Schema) (hS : SchemaGood S) : ∀ (fuel t : Nat) (b : Bytes) (m : Msg),
+    unpackMsg S fuel t b = some m → PFN S fuel m := by
   intro fuel
   induction fuel using Nat.strongRecOn with
   | _ fuel ih =>
-    intro t b m k hun hfit
+    intro t b m hun
     have hty := unpackMsg_ty S fuel t b m hun
-    -- the scan pass and the parse pass
     obtain ⟨st, hscan, hreq⟩ := Pbc.Props.C11.success_implies_required_present S fuel t b m hun
     have hacc := scanLoop_acc (S.msg t).fields (hS.ok t).distinct _ _ _ _ (scan0_acc (S.msg t).fields) hscan
     have hpa : parseAll S fuel (S.msg t).fields st.acc.reverse (initMsg S t) = some m := by
@@ -245,67 +257,100 @@ theorem parsed_canon (S : Schema) (hS : SchemaGood S) : ∀ (fuel t : Nat) (b : 
       split at hun
       · cases hun
       · exact hun
-    have hminv := parseAll_inv S fuel (S.msg t).initGeneric (S.msg t).fields (hS.nomerge t) (hS.ok t)
-      st.acc.reverse (fun _ => False) (initMsg S t) m
-      (init_minv (ParsedBy S fuel) S t (hS.ok t) (hS.nomerge t).oneof)
-      (fun sm hsm => hacc.2 sm (by simpa using hsm)) hpa
-    obtain ⟨⟨cs, hp⟩, hunk⟩ := hminv
-    -- the two forms of the claim (depth 0 / depth k+1) share everything but the predicate on nested messages
-    have main : ∀ (Q P' : Msg → Prop), (∀ m', ParsedBy S fuel m' → Q m' → P' m') → FitsMsg Q S m → CanonMsgO P' S m := by
-      intro Q P' hPQ hfm
-      obtain ⟨hrecs, htags, hslots⟩ := hfm
-      unfold CanonMsgO
-      rw [hty] at hslots ⊢
-      refine ⟨hS.ok t, hS.dflt t, ⟨cs, hp.len, ?_, hp.sel⟩, ?_, hrecs⟩
-      · intro j hj
-        have hfj := getD_mem (S.msg t).fields j hj
-        have hfs := hslots j hj
-        unfold CanonSlotO
-        cases hg : ((S.msg t).fields.getD j default).group with
-        | none =>
-          simp only
-          by_cases hl : ((S.msg t).fields.getD j default).label = .repeated
-          · rcases hp.rep j hj hg hl with h0 | ⟨n, l, hs, hn, hlen, hall⟩
-            · have : m.slots.getD j default = .rep 0 none := h0
-              rw [this]; exact ⟨hl, rfl⟩
-            · have hs' : m.slots.getD j default = .rep n (some l) := hs
-              rw [hs'] at hfs ⊢
-              exact ⟨hl, hn, hlen, fun v hv => canonElem_of _ Q P' S _ v hPQ (hall v hv) (hfs.1 v hv), hfs.2⟩
-          · obtain ⟨h1, h2⟩ := hp.one j hj hg hl
-            have hnm : ((S.msg t).fields.getD j default).type ≠ .message :=
-              fun ht => hl ((hS.nomerge t).msgRep _ hfj ht).1
-            refine classify_one (ParsedBy S fuel) Q P' S _ _ hPQ (hS.dflt t _ hfj) hg hl hnm
-              (fun hn => ?_) _ h1 (fun hr => h2 ?_) hfs
-            · have := hS.zeroInit t _ hfj hn hg
-              exact this
-            · right
-              obtain ⟨sm, hsm, hfx⟩ := hreq j hj hr (hS.reqNoDflt t _ hfj hr)
-              exact ⟨sm, by simpa using hsm, hfx⟩
-        | some gi =>
-          simp only
-          obtain ⟨v, hs, hv⟩ := hp.grp j gi hj hg
-          have hs' : m.slots.getD j default = .one (cs gi) v := hs
-          refine ⟨(hS.nomerge t).oneof j (by rw [hg]; rfl), v, hs', ?_⟩
-          split
-          · rename_i hid
-            rw [if_pos hid] at hv
-            rw [hs'] at hfs
-            exact canonElem_of _ Q P' S _ v hPQ hv hfs.1
-          · rename_i hid
-            rw [if_neg hid] at hv
-            exact hv
-      · intro u hu
-        obtain ⟨h1, h2, h3, h4⟩ := hunk u hu
-        have ht := htags u hu
-        exact ⟨h1, ht, h2, h3, h4 (by omega)⟩
-    cases k with
-    | zero => exact main (fun _ => False) (fun _ => False) (fun _ _ h => h) hfit
-    | succ k =>
-      refine main (Fits S k) (CanonNO S k) ?_ hfit
-      intro m' ⟨fuel', b', hfe, hm'⟩ hq
-      exact ih fuel' (by omega) m'.ty b' m' k hm' hq
+    -- the parse pass with any predicate on nested messages that the recursion supplies
+    have main : ∀ (P : Msg → Prop), NestOK P S fuel → PFMsg P S m := by
+      intro P hN
+      have hminv := parseAll_inv P S fuel hN (S.msg t).initGeneric (S.msg t).fields ⟨hS.oneof t⟩ (hS.ok t)
+        st.acc.reverse (fun _ => False) (initMsg S t) m
+        (init_minv P S t (hS.ok t) (hS.oneof t))
+        (fun sm hsm => hacc.2 sm (by simpa using hsm)) hpa
+      obtain ⟨⟨cs, hp⟩, hunk⟩ := hminv
+      unfold PFMsg
+      rw [hty]
+      refine ⟨⟨cs, hp.len, hp.rep, ?_, hp.grp, hp.sel⟩, hunk⟩
+      intro j hj hg hl
+      refine ⟨(hp.one j hj hg hl).1, fun hr => (hp.one j hj hg hl).2 ?_⟩
+      right
+      obtain ⟨sm, hsm, hfx⟩ := hreq j hj hr (hS.reqNoDflt t _ (getD_mem _ j hj) hr)
+      exact ⟨sm, by simpa using hsm, hfx⟩
+    cases fuel with
+    | zero =>
+      exact main (fun _ => False) ⟨fun fuel' _ _ _ h => by omega, fun fuel' _ _ _ h => by omega⟩
+    | succ f =>
+      refine main (PFN S f) ⟨?_, ?_⟩
+      · intro fuel' t' b' m' hf hm'
+        have : fuel' = f := by omega
+        subst this
+        exact ih fuel' (by omega) t' b' m' hm'
+      · intro fuel' e l r hf he hl hty' hm
+        exact merge_pfn S (mergeSch_of S hS) f _ e l r he hl hty' hm
 
-/-- **C06, re-parse (schemas without singular message fields)**: whatever input the parser accepted, serialising the
+/-- **parser form + size limits = the canonical form of the round-trip theorem** -/
+theorem pfn_canon (S : Schema) (hS : SchemaGood S) : ∀ (k n : Nat) (m : Msg), PFN S n m → Fits S k m → CanonNO S k m := by
+  -- one level, for any predicates on nested messages
+  have main : ∀ (P Q P' : Msg → Prop) (m : Msg), (∀ m', P m' → Q m' → P' m') → PFMsg P S m → FitsMsg Q S m →
+      CanonMsgO P' S m := by
+    intro P Q P' m hPQ hpf hfm
+    obtain ⟨⟨cs, hp⟩, hunk⟩ := hpf
+    obtain ⟨hrecs, htags, hslots⟩ := hfm
+    generalize htt : m.ty = t at hp hunk hslots
+    unfold CanonMsgO
+    rw [htt]
+    refine ⟨hS.ok t, hS.dflt t, ⟨cs, hp.len, ?_, hp.sel⟩, ?_, hrecs⟩
+    · intro j hj
+      have hfj := getD_mem (S.msg t).fields j hj
+      have hfs := hslots j hj
+      unfold CanonSlotO
+      cases hg : ((S.msg t).fields.getD j default).group with
+      | none =>
+        simp only
+        by_cases hl : ((S.msg t).fields.getD j default).label = .repeated
+        · rcases hp.rep j hj hg hl with h0 | ⟨n, l, hs, hn, hlen, hall⟩
+          · have : m.slots.getD j default = .rep 0 none := h0
+            rw [this]; exact ⟨hl, rfl⟩
+          · have hs' : m.slots.getD j default = .rep n (some l) := hs
+            rw [hs'] at hfs ⊢
+            exact ⟨hl, hn, hlen, fun v hv => canonElem_of _ Q P' S _ v hPQ (hall v hv) (hfs.1 v hv), hfs.2⟩
+        · obtain ⟨h1, h2⟩ := hp.one j hj hg hl
+          exact classify_one P Q P' S _ _ hPQ (hS.dflt t _ hfj) hg hl
+            (fun hn => hS.zeroInit t _ hfj hn hg) _ h1 (fun hr => h2 hr) hfs
+      | some gi =>
+        simp only
+        obtain ⟨v, hs, hv⟩ := hp.grp j gi hj hg
+        have hs' : m.slots.getD j default = .one (cs gi) v := hs
+        refine ⟨hS.oneof t j (by rw [hg]; rfl), v, hs', ?_⟩
+        split
+        · rename_i hid
+          rw [if_pos hid] at hv
+          rw [hs'] at hfs
+          exact canonElem_of _ Q P' S _ v hPQ hv hfs.1
+        · rename_i hid
+          rw [if_neg hid] at hv
+          exact hv
+    · intro u hu
+      obtain ⟨h1, h2, h3, h4⟩ := hunk u hu
+      have ht := htags u hu
+      exact ⟨h1, ht, h2, h3, h4 (by omega)⟩
+  intro k
+  induction k with
+  | zero =>
+    intro n m hpf hfit
+    cases n with
+    | zero => exact main (fun _ => False) (fun _ => False) (fun _ => False) m (fun _ h _ => h) hpf hfit
+    | succ n => exact main (PFN S n) (fun _ => False) (fun _ => False) m (fun _ _ h => h) hpf hfit
+  | succ k ih =>
+    intro n m hpf hfit
+    cases n with
+    | zero => exact main (fun _ => False) (Fits S k) (CanonNO S k) m (fun _ h _ => h.elim) hpf hfit
+    | succ n => exact main (PFN S n) (Fits S k) (CanonNO S k) m (fun m' h1 h2 => ih n m' h1 h2) hpf hfit
+
+/-- **what the parser returns is canonical**: every message `protobuf_c_message_unpack` returns on ANY input, if it
+    fits the size limits of the format (`Fits`), is in the parser form of the round-trip theorem -/
+theorem parsed_canon (S : Schema) (hS : SchemaGood S) (fuel t : Nat) (b : Bytes) (m : Msg) (k : Nat)
+    (h : unpackMsg S fuel t b = some m) (hf : Fits S k m) : CanonNO S k m :=
+  pfn_canon S hS k fuel m (parsed_pfn S hS fuel t b m h) hf
+
+/-- **C06, re-parse**: whatever input the parser accepted, serialising the
     result and parsing those bytes gives the same message back — provided the result fits the format's size limits -/
 theorem reparse_partial (S : Schema) (hS : SchemaGood S) (t : Nat) (b : Bytes) (m : Msg) (k : Nat)
     (h : unpack S t b = some m) (hf : Fits S k m) : unpack S t (packMsg S m) = some m := by
@@ -370,7 +415,6 @@ theorem exS_good : SchemaGood exS := by
   · intro t
     match t with
     | 0 =>
-      refine ⟨?_, by decide⟩
       intro i hi
       have : i < 5 ∨ 5 ≤ i := by omega
       rcases this with h | h
@@ -378,7 +422,6 @@ theorem exS_good : SchemaGood exS := by
         rcases this with rfl | rfl | rfl | rfl | rfl <;> simp [exS, Schema.msg] at hi ⊢
       · exact (hbig _ i (by simpa [exS, Schema.msg] using h) hi).elim
     | 1 =>
-      refine ⟨?_, by decide⟩
       intro i hi
       have : i < 2 ∨ 2 ≤ i := by omega
       rcases this with h | h
@@ -387,7 +430,6 @@ theorem exS_good : SchemaGood exS := by
       · exact (hbig _ i (by simpa [exS, Schema.msg] using h) hi).elim
     | t+2 =>
       rw [h2]
-      refine ⟨?_, by rw [hdf]; simp⟩
       intro i hi
       exact (hbig _ i (by rw [hdf]; simp) hi).elim
   · intro t f hf
